@@ -568,6 +568,44 @@ impl Value {
     }
 }
 
+#[cfg(sonic_rs_verif)]
+impl Value {
+    /// Verification hook: appends the representation of this value to `out`:
+    /// `R(a<arena>#<strong count>)` for a value that keeps a parsed arena alive, `O#<n>[..]` /
+    /// `M#<n>{..}` for an owned array / object behind an `Arc` with strong count `n` (members in
+    /// key order), `F` for an owned string, `S` for a static node.
+    pub fn verif_shape(&self, out: &mut String) {
+        use std::fmt::Write;
+        match self.unpack_ref() {
+            ValueDetail::Root(indom) => {
+                let ptr = indom.dom as *const Shared;
+                let arc = ManuallyDrop::new(unsafe { Arc::from_raw(ptr) });
+                let _ = write!(out, "R(a{}#{})", indom.dom.tag.0, Arc::strong_count(&arc));
+            }
+            ValueDetail::NodeInDom(_) => out.push('N'),
+            ValueDetail::Array(a) => {
+                let _ = write!(out, "O#{}[", Arc::strong_count(a));
+                for v in a.iter() {
+                    v.verif_shape(out);
+                }
+                out.push(']');
+            }
+            ValueDetail::Object(o) => {
+                let _ = write!(out, "M#{}{{", Arc::strong_count(o));
+                let mut kvs: Vec<_> = o.iter().collect();
+                kvs.sort_by(|a, b| a.0.as_str().cmp(b.0.as_str()));
+                for (k, v) in kvs {
+                    let _ = write!(out, "{}:", k.as_str());
+                    v.verif_shape(out);
+                }
+                out.push('}');
+            }
+            ValueDetail::FastStr(_) | ValueDetail::RawNumFasStr(_) => out.push('F'),
+            _ => out.push('S'),
+        }
+    }
+}
+
 unsafe impl Sync for Value {}
 unsafe impl Send for Value {}
 
